@@ -45,7 +45,8 @@ def inFrameOf (fin : Bool) (rsv op : Nat) (masked : Bool) (payload : List UInt8)
     closeOk := payload.length ≥ 2 && Sonic.Spec.WsStream.replyCode payload == Sonic.Spec.WsStream.closeCodeOf payload }
 
 def resOf : String → Res
-  | "nil" => .ok | "cancelled" => .cancelled | "eof" => .eof | "toobig" => .tooBig | _ => .err
+  | "nil" => .ok | "cancelled" => .cancelled | "eof" => .eof | "toobig" => .tooBig
+  | s => if s.startsWith "proto-" then .proto else .err
 
 def showState : WsState → String
   | .active => "active" | .closedByUs => "closedbyus" | .closedByPeer => "closedbypeer" | .closeAcked => "closeacked"
